@@ -229,6 +229,12 @@ theorem tyEquiv_iff_beq (a b : Ty) : TyEquiv a b ↔ Ty.beq a.norm b.norm = true
 
 instance (a b : Ty) : Decidable (TyEquiv a b) := decidable_of_iff _ (tyEquiv_iff_beq a b).symm
 
+/-- `infer hs` succeeded with a model equivalent to `t` -/
+def inferEquivB (hs : List Str) (t : Ty) : Bool :=
+  match infer hs with
+  | .ok t' => decide (TyEquiv t' t)
+  | .error _ => false
+
 def normField (f : Field) : Field := (f.1, f.2.1.norm, f.2.2.norm)
 
 theorem Val.normL_eq_map : ∀ (vs : List Val), Val.normL vs = vs.map Val.norm
